@@ -448,4 +448,240 @@ theorem client_opens_iff_valid_partial (cfg : CliCfg) (key data : Bytes)
         · exact absurd h h0
         · exact hproto ▸ h
 
+/-! ### segmentation independence -/
+
+/-- what follows the header block is not part of the handshake verdict -/
+def SrvOut.mapRest (f : Bytes → Bytes) : SrvOut → SrvOut
+  | .opened r p e rest => .opened r p e (f rest)
+  | o => o
+
+def CliOut.mapRest (f : Bytes → Bytes) : CliOut → CliOut
+  | .opened p e rest => .opened p e (f rest)
+  | o => o
+
+/-- `succeedHandshake` either refuses (independently of the pipelined rest) or opens, carrying the rest along -/
+theorem succeed_cases (cfg : SrvCfg) (v : Validated) (proto : Option Bytes) (uh : List (Bytes × Bytes)) :
+    (∃ o, o.isOpened = false ∧ o.isIncomplete = false ∧ o.isEscape = false ∧ ∀ r, succeed cfg v proto uh r = o) ∨
+    (∃ resp e, ∀ r, succeed cfg v proto uh r = .opened resp proto e r) := by
+  unfold succeed
+  dsimp only
+  have tail : ∀ (c1 : Bool),
+      (∃ o : SrvOut, o.isOpened = false ∧ o.isIncomplete = false ∧ o.isEscape = false ∧ ∀ r : Bytes,
+        (if c1 = true then (if cfg.aio = true then SrvOut.fail 500 [] else SrvOut.stuck)
+         else if (!(List.filter (fun e => isPmce e.name) v.exts).all (pmceParamsOk true)) = true then SrvOut.fail 400 []
+         else SrvOut.opened
+           (utf8Encode (renderResponse cfg uh proto v.key
+             (match cfg.accept with
+              | .denyAll => []
+              | .firstDeflate =>
+                (match (List.filter (fun e => isPmce e.name) v.exts).find? (·.name = b!"permessage-deflate") with
+                 | some o => [deflateAcceptString o]
+                 | none => []))))
+           proto
+           (match cfg.accept with
+            | .denyAll => []
+            | .firstDeflate =>
+              (match (List.filter (fun e => isPmce e.name) v.exts).find? (·.name = b!"permessage-deflate") with
+               | some o => [deflateAcceptString o]
+               | none => []))
+           r) = o) ∨
+      (∃ resp e, ∀ r : Bytes,
+        (if c1 = true then (if cfg.aio = true then SrvOut.fail 500 [] else SrvOut.stuck)
+         else if (!(List.filter (fun e => isPmce e.name) v.exts).all (pmceParamsOk true)) = true then SrvOut.fail 400 []
+         else SrvOut.opened
+           (utf8Encode (renderResponse cfg uh proto v.key
+             (match cfg.accept with
+              | .denyAll => []
+              | .firstDeflate =>
+                (match (List.filter (fun e => isPmce e.name) v.exts).find? (·.name = b!"permessage-deflate") with
+                 | some o => [deflateAcceptString o]
+                 | none => []))))
+           proto
+           (match cfg.accept with
+            | .denyAll => []
+            | .firstDeflate =>
+              (match (List.filter (fun e => isPmce e.name) v.exts).find? (·.name = b!"permessage-deflate") with
+               | some o => [deflateAcceptString o]
+               | none => []))
+           r) = .opened resp proto e r) := by
+    intro c1
+    cases c1
+    · cases h2 : (!(List.filter (fun e => isPmce e.name) v.exts).all (pmceParamsOk true))
+      · right; exact ⟨_, _, fun _ => rfl⟩
+      · left; exact ⟨.fail 400 [], rfl, rfl, rfl, fun _ => rfl⟩
+    · left
+      cases cfg.aio
+      · exact ⟨.stuck, rfl, rfl, rfl, fun _ => rfl⟩
+      · exact ⟨.fail 500 [], rfl, rfl, rfl, fun _ => rfl⟩
+  cases proto with
+  | none => exact tail false
+  | some p => exact tail (decide (p ∉ v.protocols))
+
+theorem SrvOut.mapRest_of_not_opened {o : SrvOut} (h : o.isOpened = false) (f : Bytes → Bytes) : o.mapRest f = o := by
+  cases o <;> first | rfl | simp [SrvOut.isOpened] at h
+
+theorem succeed_append (cfg : SrvCfg) (v : Validated) (proto : Option Bytes) (uh : List (Bytes × Bytes))
+    (r t : Bytes) : succeed cfg v proto uh (r ++ t) = (succeed cfg v proto uh r).mapRest (· ++ t) := by
+  rcases succeed_cases cfg v proto uh with ⟨o, h1, _, _, h⟩ | ⟨resp, e, h⟩
+  · rw [h, h]; cases o <;> first | rfl | simp [SrvOut.isOpened] at h1
+  · rw [h, h]; rfl
+
+theorem take_append_of_le {α : Type} {n : Nat} {d : List α} (h : n ≤ d.length) (t : List α) :
+    (d ++ t).take n = d.take n := by
+  rw [List.take_append_of_le_length h]
+
+theorem drop_append_of_le' {α : Type} {n : Nat} {d : List α} (h : n ≤ d.length) (t : List α) :
+    (d ++ t).drop n = d.drop n ++ t := by
+  rw [List.drop_append_of_le_length h]
+
+/-- once the terminator is in the buffer, later octets only extend the pipelined rest -/
+theorem server_append_done {cfg : SrvCfg} {env : SrvEnv} {d : Bytes} {i : Nat} (h : find crlfcrlf d = some i)
+    (t : Bytes) : server cfg env (d ++ t) = (server cfg env d).mapRest (· ++ t) := by
+  have hb : i + 4 ≤ d.length := by simpa [crlfcrlf] using find_bound h
+  unfold server
+  rw [find_prefix_stable h t, h]
+  simp only [take_append_of_le hb, drop_append_of_le' hb]
+  split
+  · rfl
+  · split
+    · next o ho => exact (SrvOut.mapRest_of_not_opened (validate_error_not_opened ho) _).symm
+    · split
+      · rfl
+      · rfl
+      · exact succeed_append _ _ _ _ _ _
+
+theorem client_append_done {cfg : CliCfg} {key d : Bytes} {i : Nat} (h : find crlfcrlf d = some i)
+    (t : Bytes) : client cfg key (d ++ t) = (client cfg key d).mapRest (· ++ t) := by
+  have hb : i + 4 ≤ d.length := by simpa [crlfcrlf] using find_bound h
+  unfold client
+  rw [find_prefix_stable h t, h]
+  simp only [take_append_of_le hb, drop_append_of_le' hb]
+  split
+  · rfl
+  · split
+    · rfl
+    · split
+      · next o ho => rw [cvalidate_error ho]; rfl
+      · rfl
+
+theorem validate_error_not_incomplete {cfg : SrvCfg} {env : SrvEnv} {line : Bytes} {hs : List Hdr} {o : SrvOut}
+    (h : validate cfg env line hs = .error o) : o.isIncomplete = false := by
+  rcases validate_error h with h | ⟨_, _, h | h | h⟩
+  · obtain ⟨c, e, rfl⟩ := h; rfl
+  · obtain ⟨r, rfl⟩ := h; rfl
+  · obtain ⟨r, rfl⟩ := h; rfl
+  · obtain ⟨r, rfl, _⟩ := h; rfl
+
+theorem succeed_not_incomplete (cfg : SrvCfg) (v : Validated) (proto : Option Bytes) (uh : List (Bytes × Bytes))
+    (r : Bytes) : (succeed cfg v proto uh r).isIncomplete = false := by
+  rcases succeed_cases cfg v proto uh with ⟨o, _, h2, _, h⟩ | ⟨resp, e, h⟩
+  · rw [h]; exact h2
+  · rw [h]; rfl
+
+/-- the model keeps buffering exactly while the terminator has not arrived (flash policy serving aside) -/
+theorem server_incomplete_iff {cfg : SrvCfg} {env : SrvEnv} (hflash : cfg.flashPolicy = false) (d : Bytes) :
+    (server cfg env d).isIncomplete = true ↔ find crlfcrlf d = none := by
+  unfold server
+  cases hf : find crlfcrlf d with
+  | none => simp [hflash, SrvOut.isIncomplete]
+  | some i =>
+    simp only [reduceCtorEq, iff_false, Bool.not_eq_true]
+    split
+    · rfl
+    · split
+      · next o ho => exact validate_error_not_incomplete ho
+      · split
+        · rfl
+        · rfl
+        · exact succeed_not_incomplete _ _ _ _ _
+
+theorem client_incomplete_iff (cfg : CliCfg) (key d : Bytes) :
+    (client cfg key d).isIncomplete = true ↔ find crlfcrlf d = none := by
+  unfold client
+  cases hf : find crlfcrlf d with
+  | none => simp [CliOut.isIncomplete]
+  | some i =>
+    simp only [reduceCtorEq, iff_false, Bool.not_eq_true]
+    split
+    · rfl
+    · split
+      · rfl
+      · split
+        · next o ho => rw [cvalidate_error ho]; rfl
+        · rfl
+
+theorem feedAll_done {α : Type} (judge : Bytes → α) (inc : α → Bool) (o : α) (cs : List Bytes) :
+    feedAllWith judge inc (.done o) cs = .done o := by
+  induction cs with
+  | nil => rfl
+  | cons c cs ih => simpa [feedAllWith, feedWith] using ih
+
+/-- generic: a judge that (a) keeps buffering iff the terminator is absent and (b) is stable once it is present
+gives, for any chunking, the verdict of the concatenation up to the pipelined rest -/
+theorem feed_generic {α : Type} (judge : Bytes → α) (inc : α → Bool) (mapRest : (Bytes → Bytes) → α → α)
+    (erase : α → α) (incv : α)
+    (hinc : ∀ d, inc (judge d) = true ↔ find crlfcrlf d = none)
+    (hincv : ∀ d, find crlfcrlf d = none → erase (judge d) = erase incv)
+    (hstable : ∀ d i t, find crlfcrlf d = some i → judge (d ++ t) = mapRest (· ++ t) (judge d))
+    (herase : ∀ f o, erase (mapRest f o) = erase o)
+    (d : Bytes) (hd : find crlfcrlf d = none) (cs : List Bytes) :
+    erase ((feedAllWith judge inc (.buffering d) cs).result incv) = erase (judge (d ++ cs.flatten)) := by
+  induction cs generalizing d with
+  | nil => simp [feedAllWith, Conn.result, hincv d hd]
+  | cons c cs ih =>
+    simp only [feedAllWith, List.foldl_cons, feedWith, List.flatten_cons]
+    cases hf : find crlfcrlf (d ++ c) with
+    | none =>
+      have := (hinc (d ++ c)).2 hf
+      simp only [this, if_true]
+      have := ih (d ++ c) hf
+      simp only [feedAllWith, List.append_assoc] at this
+      exact this
+    | some i =>
+      have hni : inc (judge (d ++ c)) = false := by
+        cases hx : inc (judge (d ++ c)) with
+        | false => rfl
+        | true => rw [(hinc _).1 hx] at hf; cases hf
+      simp only [hni, Bool.false_eq_true, if_false]
+      have := feedAll_done judge inc (judge (d ++ c)) cs
+      simp only [feedAllWith] at this
+      rw [this]
+      simp only [Conn.result]
+      rw [← List.append_assoc, hstable (d ++ c) i cs.flatten hf, herase]
+
+def SrvOut.dropRest : SrvOut → SrvOut := SrvOut.mapRest (fun _ => [])
+def CliOut.dropRest : CliOut → CliOut := CliOut.mapRest (fun _ => [])
+
+/-- **segmentation_independent** (server; for configurations that do not serve the Flash policy file — with it the
+verdict on `<policy-file-request/>\0` is given before a later header terminator could arrive, see the `example`):
+feeding any chunking gives the verdict of feeding the concatenation, up to the pipelined octets after the header. -/
+theorem segmentation_independent_server (cfg : SrvCfg) (env : SrvEnv) (hflash : cfg.flashPolicy = false)
+    (cs : List Bytes) : (serverFeed cfg env cs).dropRest = (server cfg env cs.flatten).dropRest := by
+  have := feed_generic (server cfg env) SrvOut.isIncomplete SrvOut.mapRest SrvOut.dropRest .incomplete
+    (server_incomplete_iff hflash)
+    (by
+      intro d hd
+      have := (server_incomplete_iff (env := env) hflash d).2 hd
+      cases hs : server cfg env d <;> simp [hs, SrvOut.isIncomplete] at this
+      rfl)
+    (fun d i t h => server_append_done h t)
+    (by intro f o; cases o <;> rfl)
+    [] (by decide) cs
+  simpa [serverFeed] using this
+
+/-- **segmentation_independent** (client), for all keys, configurations and chunkings. -/
+theorem segmentation_independent_client (cfg : CliCfg) (key : Bytes) (cs : List Bytes) :
+    (clientFeed cfg key cs).dropRest = (client cfg key cs.flatten).dropRest := by
+  have := feed_generic (client cfg key) CliOut.isIncomplete CliOut.mapRest CliOut.dropRest .incomplete
+    (client_incomplete_iff cfg key)
+    (by
+      intro d hd
+      have := (client_incomplete_iff cfg key d).2 hd
+      cases hs : client cfg key d <;> simp [hs, CliOut.isIncomplete] at this
+      rfl)
+    (fun d i t h => client_append_done h t)
+    (by intro f o; cases o <;> rfl)
+    [] (by decide) cs
+  simpa [clientFeed] using this
+
 end Abverif.Handshake
